@@ -18,6 +18,7 @@ theorem step_observer_core (c : Cfg) (s : State) (op : Op) (h : op.isObserver = 
   | getCostB => simp only [step, costStep]; split <;> rfl
   | setSpec k => simp [Op.isObserver] at h
   | forward => simp [Op.isObserver] at h
+  | optStep => simp [Op.isObserver] at h
 
 theorem run_cons (c : Cfg) (s : State) (op : Op) (ops : List Op) :
     run c s (op :: ops) = run c (step c s op).1 ops := rfl
@@ -48,19 +49,21 @@ theorem observer_out_of_core (c : Cfg) (a b : State) (op : Op) (h : op.isObserve
   | getCostB => simp only [step, costStep, hs, ht, ha]; split <;> rfl
   | setSpec k => simp [Op.isObserver] at h
   | forward => simp [Op.isObserver] at h
+  | optStep => simp [Op.isObserver] at h
 
 /-- the sample a forward takes is the same up to the identity of the Gumbel draw -/
 theorem sample_obs (c : Cfg) (tr : Bool) (r r' : Nat) (a b : Theta)
-    (hh : a.hardened = b.hardened) (hn : a.noise.isSome = b.noise.isSome) :
+    (hh : a.hardened = b.hardened) (hn : a.noise.isSome = b.noise.isSome) (hl : a.live = b.live) :
     (sample c tr r a).hardened = (sample c tr r' b).hardened ∧
-    (sample c tr r a).noise.isSome = (sample c tr r' b).noise.isSome := by
+    (sample c tr r a).noise.isSome = (sample c tr r' b).noise.isSome ∧
+    (sample c tr r a).live = (sample c tr r' b).live := by
   unfold sample
   cases c.method with
-  | pit => exact ⟨hh, hn⟩
+  | pit => exact ⟨hh, hn, hl⟩
   | mps =>
     simp only
     split
-    · exact ⟨hh, hn⟩
+    · exact ⟨hh, hn, hl⟩
     · split <;> simp
   | sn => simp only; split <;> simp
 
@@ -69,7 +72,7 @@ the left one takes the step, the right one skips it when it is an observer -/
 theorem step_sim (c : Cfg) (a b : State) (op : Op) (h : obsState a = obsState b) :
     obsState (step c a op).1 = obsState (if op.isObserver then b else (step c b op).1) := by
   simp only [obsState, ObsState.mk.injEq] at h
-  obtain ⟨h1, h2, hb, hd, h3, h4, h5, h6, h7, h8⟩ := h
+  obtain ⟨h1, h2, hb, hd, h3, h4, hv, h5, h6, h7, h8⟩ := h
   cases op with
   | exportNet => simp [step, exportStep, Op.isObserver, obsState, *]
   | exportNoBn => simp [step, exportStep, Op.isObserver, obsState, *]
@@ -85,8 +88,9 @@ theorem step_sim (c : Cfg) (a b : State) (op : Op) (h : obsState a = obsState b)
     split <;> simp [obsState, *]
   | setSpec k => simp [step, Op.isObserver, obsState, *]
   | forward =>
-    have hs := sample_obs c b.strain a.rng b.rng a.theta b.theta h3 h4
-    simp [step, forwardStep, Op.isObserver, obsState, h1, h2, hb, hd, h5, h6, h7, h8, hs.1, hs.2]
+    have hs := sample_obs c b.strain a.rng b.rng a.theta b.theta h3 h4 hv
+    simp [step, forwardStep, Op.isObserver, obsState, h1, h2, hb, hd, h5, h6, h7, h8, hs.1, hs.2.1, hs.2.2]
+  | optStep => simp [step, optStepStep, costLive, Op.isObserver, obsState, *]
 
 theorem run_sim (c : Cfg) (ops : List Op) :
     ∀ a b, obsState a = obsState b →
@@ -146,6 +150,7 @@ theorem step_sim_exact (c : Cfg) (hnd : ∀ tr, sampleDraws c tr = false) (a b :
     | getCost => simp [Op.isObserver] at ho'
     | getCostB => simp [Op.isObserver] at ho'
     | setSpec k => simp [step, core, obsStateExact, *]
+    | optStep => simp [step, optStepStep, costLive, core, obsStateExact, *]
     | forward =>
       have := sample_nodraw c b.strain a.rng b.rng b.theta (hnd _)
       simp [step, forwardStep, core, obsStateExact, h1, h2, hb, hd, h3, h4, h5, h6, h7, this]
